@@ -67,8 +67,13 @@ def run(ctx):
         else:
             ctx.expect(fl.dims[:1] == ('m',), 'PERM-8', 'Models (reader v%d) fluxes share the model axis with names' % version, loc(fi), 'fluxes axes %s' % (fl.dims,),
                        'fluxes axes %s' % (fl.dims,), 'model-axis')
-    from . import c01
+    from . import c01, c02, c03
     c01.check_filter_dicts(ctx)
+    # 'ranks m first with chi^2 ~ 0, reports A_V ~ A_V0 and scale ~ log10 d0': the kernels, both fitting modes and chi_squared itself (C01, C02, C03)
+    c01.check_kernels(ctx)
+    c01.check_fit_2d(ctx)
+    c02.check_fit_3d(ctx)
+    c03.check_chi(ctx, c03.check_transform(ctx))
     # hop 3: FitInfo.model_name and the single permutation
     c04.check_fit_rows(ctx)
     c04.check_sort(ctx)
